@@ -60,18 +60,27 @@ fn find<'a>(
         })
 }
 
-fn count_input_type(owner: &dyn HasVariables) -> usize {
+/// Returns the number of VAR_INPUT variables. The edge-triggered inputs
+/// (`R_EDGE` and `F_EDGE`) are kept apart from the other variables and they
+/// are inputs.
+fn count_input_type(owner: &FunctionBlockDeclaration) -> usize {
     owner
         .variables()
         .iter()
         .filter(|item| item.var_type == VariableType::Input)
         .count()
+        + owner.edge_variables.len()
 }
 
-/// Returns the first VAR_INPUT or VAR_INOUT variable matching the name
-/// or `None` if the owner does not contain a matching variable.
-fn find_input_type<'a>(owner: &'a dyn HasVariables, name: &'a Id) -> Option<&'a VarDecl> {
-    find(owner, name, &[VariableType::Input, VariableType::InOut])
+/// Returns if the owner has a VAR_INPUT or VAR_INOUT variable matching
+/// the name. The edge-triggered inputs (`R_EDGE` and `F_EDGE`) are kept apart
+/// from the other variables and they are inputs.
+fn has_input_type(owner: &FunctionBlockDeclaration, name: &Id) -> bool {
+    find(owner, name, &[VariableType::Input, VariableType::InOut]).is_some()
+        || owner
+            .edge_variables
+            .iter()
+            .any(|item| item.identifier.eq(name))
 }
 
 /// Returns the first VAR_OUTPUT variable matching the name
@@ -152,20 +161,17 @@ impl<'a> RuleFunctionBlockUse<'a> {
         if !formal.is_empty() {
             // TODO check the types.
             for name in formal {
-                match find_input_type(function_block, &name.name) {
-                    Some(_) => {}
-                    None => {
-                        return Err(Diagnostic::problem(
-                            Problem::FunctionInvocationMissingInput,
-                            Label::span(fb_call.span(), "Function block invocation"),
-                        )
-                        .with_context_id("invocation", &function_block.name)
-                        .with_context_id("undefined input", &name.name)
-                        .with_secondary(Label::span(
-                            function_block.span(),
-                            "Function block declaration",
-                        )))
-                    }
+                if !has_input_type(function_block, &name.name) {
+                    return Err(Diagnostic::problem(
+                        Problem::FunctionInvocationMissingInput,
+                        Label::span(fb_call.span(), "Function block invocation"),
+                    )
+                    .with_context_id("invocation", &function_block.name)
+                    .with_context_id("undefined input", &name.name)
+                    .with_secondary(Label::span(
+                        function_block.span(),
+                        "Function block declaration",
+                    )));
                 }
             }
         }
